@@ -71,8 +71,8 @@ var checkSpecs = map[string]CheckSpec{
 	"C04": {ID: "C04", Harnesses: []HarnessSpec{
 		{Pkg: "cors", Entry: "zzH_C04_validate", Reach: []string{"accepted", "rejected", "three-violations", "bad-status", "bad-max-age", "junk-method", "junk-header"}},
 	}, Bounds: map[string]string{
-		"quick":    "one list drawn in full at a time (0-2 atoms from the first 8 origin atoms / 7 name atoms, every order), plus one fully symbolic 4-byte method or request-header name; the five switches symbolic for the origin and integer focuses; status and max-age symbolic over the full 64-bit range (max-age: symbolic out-of-range values and the pinned values -2,-1,0,86400,86401); the other fields from three backgrounds (valid / one defect each / mixed)",
-		"thorough": "30 origin atoms (one per documented defect), 10 name atoms per list",
+		"quick":    "one list drawn in full at a time (0-2 atoms from the first 9 origin atoms / 7 name atoms, every order; the origin atoms include one that is both insecure and a public-suffix wildcard), plus one fully symbolic 4-byte method or request-header name; the five switches symbolic for the origin and integer focuses; status and max-age symbolic over the full 64-bit range (max-age: symbolic out-of-range values and the pinned values -2,-1,0,86400,86401); the other fields from three backgrounds (valid / one defect each / mixed)",
+		"thorough": "32 origin atoms (one per documented defect), 10 name atoms per list",
 	}, Outside: "origin patterns other than the atoms (their grammar is C13's); lists longer than 2; junk names longer than 4 bytes; rendering of accepted max-age values other than the pinned ones",
 		Explain: "err == nil <=> the oracle (documented prohibitions evaluated on the Config as supplied) finds no violation; NewMiddleware returns a nil middleware with every error; Reconfigure gives the same verdict"},
 	"C05": {ID: "C05", Harnesses: []HarnessSpec{
